@@ -61,6 +61,16 @@ func Replay(verifDir, repoDir, path string) (int, error) {
 	}
 	js, _ := json.MarshalIndent(observed, "", " ")
 	if clause != "" {
+		if cl, ok := classifiers[head.Property]; ok {
+			if key := cl(raw, observed); key != "" {
+				known, _ := harness.LoadFindings(verifDir)
+				for _, f := range known {
+					if f.Kind == "finding" && f.Match == key {
+						fmt.Printf("KNOWN-FINDING: property=%s %s\n", head.Property, f.What)
+					}
+				}
+			}
+		}
 		fmt.Printf("REPRODUCED property=%s clause=%s\n%s\n", head.Property, clause, js)
 		return 1, nil
 	}
@@ -71,6 +81,40 @@ func Replay(verifDir, repoDir, path string) (int, error) {
 // replayers re-execute one materialised case and return the failing clause
 // ("" if none).
 var replayers = map[string]func(e *Env, raw []byte) (string, any, error){}
+
+// classifiers name the known-finding predicate a reproduced case satisfies.
+var classifiers = map[string]func(raw []byte, observed any) string{
+	"C08": func(raw []byte, observed any) string {
+		var v struct {
+			Case C08Case `json:"case"`
+		}
+		if json.Unmarshal(raw, &v) != nil {
+			return ""
+		}
+		o, _ := observed.(*c08Obs)
+		return c08Known(&v.Case, o)
+	},
+	"C03": func(raw []byte, observed any) string {
+		var v struct {
+			Case C03Case `json:"case"`
+		}
+		if json.Unmarshal(raw, &v) != nil {
+			return ""
+		}
+		o, _ := observed.(*c03Obs)
+		return c03Known(&v.Case, o)
+	},
+	"C18": func(raw []byte, observed any) string {
+		var v struct {
+			Case C18Case `json:"case"`
+		}
+		if json.Unmarshal(raw, &v) != nil {
+			return ""
+		}
+		o, _ := observed.(*c18Obs)
+		return c18Known(&v.Case, o)
+	},
+}
 
 // Selftest is filled in by selftest.go.
 var Selftest = func(verifDir, repoDir string) error { return fmt.Errorf("not built") }
